@@ -158,23 +158,23 @@ theorem parse_compact (y m d : Nat) (hy : y < 10000) (hm : m < 100) (hd : d < 10
     rcases hc with rfl | rfl | rfl | rfl | rfl | rfl | rfl | rfl <;> exact digit_isDigit _
 
 /-- `yyyy-mm-ddTHH:MM:SS` is read back as its fields -/
-theorem parse_iso (y m d h mi s : Nat) (hy : y < 10000) (hm : m < 100) (hd : d < 100) (hh : h < 100) (hmi : mi < 100) (hs : s < 100) :
+theorem parse_iso (y m d h mi s : Nat) (hy : y < 10000) (hm : m < 100) (hd : d < 100) (hh : h < 24) (hmi : mi < 60) (hs : s < 60) :
     parseCs (pad4 y ++ '-' :: (pad2 m ++ '-' :: (pad2 d ++ 'T' :: (pad2 h ++ ':' :: (pad2 mi ++ ':' :: (pad2 s ++ []))))))
       = some ⟨false, 0, y, m, d, ((h * 3600000000 + mi * 60000000 + s * 1000000 : Nat) : Int), 0⟩ := by
   unfold parseCs
   rw [scan_iso _ (by simp [pad_lengths]) y m d h mi s [] ndh_nil, scan_nil]
-  rw [val_pad4 y hy, val_pad2 m hm, val_pad2 d hd, val_pad2 h hh, val_pad2 mi hmi, val_pad2 s hs]
-  simp [parseTokens, parseTime, mk]
+  rw [val_pad4 y hy, val_pad2 m hm, val_pad2 d hd, val_pad2 h (by omega), val_pad2 mi (by omega), val_pad2 s (by omega)]
+  simp [parseTokens, parseTime, mk, hh, hmi, hs]
 
 /-- `yyyy-mm-ddTHH:MM:SS.ffffff` is read back as its fields -/
-theorem parse_iso_frac (y m d h mi s us : Nat) (hy : y < 10000) (hm : m < 100) (hd : d < 100) (hh : h < 100) (hmi : mi < 100)
-    (hs : s < 100) (hus : us < 1000000) :
+theorem parse_iso_frac (y m d h mi s us : Nat) (hy : y < 10000) (hm : m < 100) (hd : d < 100) (hh : h < 24) (hmi : mi < 60)
+    (hs : s < 60) (hus : us < 1000000) :
     parseCs (pad4 y ++ '-' :: (pad2 m ++ '-' :: (pad2 d ++ 'T' :: (pad2 h ++ ':' :: (pad2 mi ++ ':' :: (pad2 s ++ '.' :: pad6 us))))))
       = some ⟨false, 0, y, m, d, ((h * 3600000000 + mi * 60000000 + s * 1000000 : Nat) : Int), (us : Int)⟩ := by
   unfold parseCs
   rw [scan_iso _ (by simp [pad_lengths]) y m d h mi s _ (ndh_cons _ _ (by decide)), scan_frac _ (by simp [pad_lengths])]
-  rw [val_pad4 y hy, val_pad2 m hm, val_pad2 d hd, val_pad2 h hh, val_pad2 mi hmi, val_pad2 s hs, val_pad6 us hus]
-  simp [parseTokens, parseTime, mk]
+  rw [val_pad4 y hy, val_pad2 m hm, val_pad2 d hd, val_pad2 h (by omega), val_pad2 mi (by omega), val_pad2 s (by omega), val_pad6 us hus]
+  simp [parseTokens, parseTime, mk, hh, hmi, hs]
 
 open Pyg.Greg in
 /-- a non-ambiguous reading of a calendar date: both dialects return date + time of day -/
